@@ -1,6 +1,7 @@
 package main
 
 import (
+	"verif.local/mc/harness/c01"
 	"verif.local/mc/harness/c15"
 	"verif.local/mc/harness/c13"
 	"verif.local/mc/harness/c04"
@@ -20,6 +21,7 @@ import (
 )
 
 func init() {
+	register("C01", "exploration", c01.Run)
 	register("C15", "model_checking", c15.Run)
 	register("C13", "fault_enumeration", c13.Run)
 	register("C04", "exploration", c04.Run04)
